@@ -13,7 +13,7 @@ import (
 )
 
 func init() {
-	register("C14", "Decides: (R1) in the ExtendedDaemonSet reconciler the accumulator fields Ready/Current/Available are each written by exactly one `acc.X += item.Status.X` that executes for every item of the listed replica sets (before any filtering); Status.Current/Ready/Available are stored only from the like-named accumulator field; Status.Desired is stored only as <rs>.Status.Desired of the replica set whose name is stored to Status.ActiveReplicaSet, or incremented by <rs>.Status.Desired of the replica set whose name is stored to Status.Canary.ReplicaSet, on exactly the paths that store that name and after the base store; Status.UpToDate is stored only as <rs>.Status.Current of one of those two replica sets, the canary one on exactly the canary paths; (R2) in every strategy planner the stored NewStatus.Ready/Available/Current are per-node counters of one loop that are incremented only under IsPodReady(pod) / IsPodAvailable(pod) / a test that holds only when the pod's template-hash annotation equals a hash (inline, or a repository predicate every true path of which carries that equality, followed through nested predicates) of one pod of the iteration; where NewStatus.Desired is a counter (active and canary roles) it grows by exactly one per iteration and every feasible iteration path satisfies 0 <= dAvailable <= dReady <= dCurrent <= dDesired, using the lemma IsPodAvailable => IsPodReady (itself checked) to prune infeasible paths; every return of a planner whose error result is not known non-nil is dominated by the stores of those four counters (stale counters only accompany an error); (R3) decision tables: the condition-maintenance function sets Canary-Failed True iff failed and Canary-Paused True iff paused and not failed; the state function stores State 'Canary Failed' iff failed, otherwise during an active canary 'Canary Paused' iff paused else 'Canary', otherwise the non-canary state of the annotations; Status.Canary is cleared unless the canary is active; the active flag is true only without failure and with different active/up-to-date names.", runC14)
+	register("C14", "Decides: (R1) in the ExtendedDaemonSet reconciler the accumulator fields Ready/Current/Available are each written by exactly one `acc.X += item.Status.X` that executes for every item of the listed replica sets (before any filtering); Status.Current/Ready/Available are stored only from the like-named accumulator field; Status.Desired is stored only as <rs>.Status.Desired of the replica set whose name is stored to Status.ActiveReplicaSet, or incremented by <rs>.Status.Desired of the replica set whose name is stored to Status.Canary.ReplicaSet, on exactly the paths that store that name and after the base store; Status.UpToDate is stored only as <rs>.Status.Current of one of those two replica sets, the canary one on exactly the canary paths; (R2) in every strategy planner the stored NewStatus.Ready/Available/Current are per-node counters of one loop that are incremented only under IsPodReady(pod) / IsPodAvailable(pod) / a test that holds only when the pod's template-hash annotation equals a hash (inline, or a repository predicate every true path of which carries that equality, followed through nested predicates) of one pod of the iteration; where NewStatus.Desired is a counter (active and canary roles) it grows by exactly one per iteration and every feasible iteration path satisfies 0 <= dAvailable <= dReady <= dCurrent <= dDesired, using the lemma IsPodAvailable => IsPodReady (itself checked) to prune infeasible paths; every return of a planner whose error result is not known non-nil is dominated by the stores of those four counters (stale counters only accompany an error); (R3) decision tables: the condition-maintenance function sets Canary-Failed True iff failed and Canary-Paused True iff paused and not failed; the state function stores State 'Canary Failed' iff failed, otherwise during an active canary 'Canary Paused' iff paused else 'Canary', otherwise the non-canary state of the annotations; Status.Canary is cleared unless the canary is active; the active flag is true only without failure and with different active/up-to-date names; the condition updater gives an existing condition the status it is handed unless equal, and refreshes Reason and Message from its arguments on every path where that status is True, also when the status did not change.", runC14)
 }
 
 const fnEDSCondUpdate = pkgEDSCond + ".UpdateExtendedDaemonSetStatusCondition"
@@ -105,7 +105,17 @@ func c14Accumulate(r *Run, a *ssa.Alloc, fn *ssa.Function, tr *ipTracer) *c14Acc
 	// client List call of replica sets has filled.
 	isListed := func(v ssa.Value) bool {
 		n := 0
-		for _, lf := range tr.trace(v, fn) {
+		leaves := tr.trace(v, fn)
+		if cell, isCell := v.(*ssa.Alloc); isCell {
+			// a variable holding the list pointer (e.g. captured by a closure): what is stored in it
+			if ws := wholeStores(cell); len(ws) > 0 {
+				leaves = nil
+				for _, st := range ws {
+					leaves = append(leaves, tr.trace(st.Val, fn)...)
+				}
+			}
+		}
+		for _, lf := range leaves {
 			if isNilConst(lf.v) {
 				continue // error returns of a listing helper
 			}
@@ -115,7 +125,7 @@ func c14Accumulate(r *Run, a *ssa.Alloc, fn *ssa.Function, tr *ipTracer) *c14Acc
 			}
 			filled := false
 			for _, ci := range callsIn(lf.fn) {
-				if e := clientEffect(lf.fn, ci); e != nil && e.Verb == "List" && e.Kind == pkgAPI+".ExtendedDaemonSetReplicaSetList" && unwrap(e.Obj) == ssa.Value(al) {
+				if e := clientEffect(lf.fn, ci); e != nil && e.Verb == "List" && e.Kind == pkgAPI+".ExtendedDaemonSetReplicaSetList" && derivesOnlyFrom(e.Obj, func(o ssa.Value) bool { return o == ssa.Value(al) }) {
 					filled = true
 				}
 			}
@@ -886,6 +896,121 @@ func c14ImpliesTemplateMatch(r *Run, fn *ssa.Function, podIdx int, memo map[stri
 	return good
 }
 
+// c14CondUpdater (R3): the ExtendedDaemonSet condition updater makes an existing condition agree with
+// what it is given: Status becomes the given status unless it already equals it, and whenever the
+// given status is True the Reason and the Message are refreshed - also when the status did not change
+// (a condition that stays True must follow a changed reason, e.g. another pause reason).
+func c14CondUpdater(r *Run, reach map[*ssa.Function]bool) {
+	fn := r.Prog.Func(pkgEDSCond, "UpdateExtendedDaemonSetStatusCondition")
+	if fn == nil {
+		r.Fatal("anchor %s not found", fnEDSCondUpdate)
+		return
+	}
+	pos := r.Prog.Pos(fn.Pos())
+	var statusP *ssa.Parameter
+	var strs []*ssa.Parameter
+	for _, p := range fn.Params {
+		switch {
+		case typeName(p.Type()) == pkgCoreV1+".ConditionStatus":
+			statusP = p
+		default:
+			if b, ok := p.Type().(*types.Basic); ok && b.Kind() == types.String {
+				strs = append(strs, p)
+			}
+		}
+	}
+	// which string parameter is the reason: the one that receives a value converted from an
+	// ExtendedDaemonSetStatusReason at a call site of the reconciler
+	var reasonP, descP *ssa.Parameter
+	for _, c := range callSitesOf(fn, reach) {
+		for i, a := range c.Common().Args {
+			if i >= len(fn.Params) {
+				break
+			}
+			// the argument is (on some way it is computed) a value converted from a status reason
+			if anyOrigin(a, func(o ssa.Value) bool { return typeName(o.Type()) == pkgAPI+".ExtendedDaemonSetStatusReason" }) {
+				reasonP = fn.Params[i]
+			}
+		}
+	}
+	// preferably: the arguments that a newly created condition receives as Reason and Message (read off
+	// the constructor the updater calls)
+	for _, ci := range callsIn(fn) {
+		c, isCall := ci.(*ssa.Call)
+		if !isCall {
+			continue
+		}
+		ctor := staticCallee(&c.Call)
+		if ctor == nil || !r.Prog.IsRuleSite(ctor) || typeName(c.Type()) != pkgAPI+".ExtendedDaemonSetCondition" {
+			continue
+		}
+		for _, b := range ctor.Blocks {
+			for _, in := range b.Instrs {
+				st, isSt := in.(*ssa.Store)
+				if !isSt {
+					continue
+				}
+				fa, isFA := st.Addr.(*ssa.FieldAddr)
+				if !isFA {
+					continue
+				}
+				for i, cp := range ctor.Params {
+					if i >= len(c.Call.Args) || !(st.Val == ssa.Value(cp) || readsParam(st.Val, cp)) {
+						continue
+					}
+					up, isP := c.Call.Args[i].(*ssa.Parameter)
+					if !isP || up.Parent() != fn {
+						continue
+					}
+					switch fieldName(fa) {
+					case "Reason":
+						reasonP = up
+					case "Message":
+						descP = up
+					}
+				}
+			}
+		}
+	}
+	for _, p := range strs {
+		if p != reasonP && descP == nil {
+			descP = p
+		}
+	}
+	if statusP == nil || reasonP == nil || descP == nil || len(strs) != 2 {
+		r.Undecided("C14.R3", "condition updater", pos, shortFunc(fn), "the status / reason / message parameters of the updater cannot be identified")
+		return
+	}
+	isCondPtr := func(v ssa.Value) bool { return isPtrToNamed(v.Type(), pkgAPI, "ExtendedDaemonSetCondition") }
+	isElem := func(v ssa.Value) bool {
+		if _, isParam := v.(*ssa.Parameter); isParam {
+			return false
+		}
+		return isCondPtr(v)
+	}
+	exists := func(p *Path) bool { return pathFoundElement(p, isCondPtr) }
+	isTrue := map[*ssa.Parameter]string{statusP: "True"}
+	for _, w := range []struct {
+		field string
+		val   *ssa.Parameter
+	}{{"Reason", reasonP}, {"Message", descP}} {
+		ok, n, bad := elemFieldSet(r, fn, isElem, w.field, w.val, isTrue, exists, false, 0)
+		detail := fmt.Sprintf("%d path(s) with an existing condition and status True", n)
+		if !ok {
+			detail = "not refreshed on path " + bad
+		}
+		r.Check("C14.R3", "updater refreshes "+w.field, pos, shortFunc(fn),
+			"an existing condition given status True gets its "+w.field+" from the argument on every path (also when the status does not change)", ok && n > 0, detail)
+	}
+	// Status: unless known equal
+	ok, n, bad := elemFieldSet(r, fn, isElem, "Status", statusP, nil, exists, true, 0)
+	detail := fmt.Sprintf("%d path(s) with an existing condition whose status is not known to equal the argument", n)
+	if !ok {
+		detail = "not updated on path " + bad
+	}
+	r.Check("C14.R3", "updater sets Status", pos, shortFunc(fn), "an existing condition gets the given status unless it already has it", ok && n > 0, detail)
+}
+
 func shortName(callee string) string {
 	if i := strings.LastIndex(callee, "."); i >= 0 {
 		return callee[i+1:]
@@ -1229,6 +1354,7 @@ func runC14(r *Run) {
 	c14StatusTable(r, reach)
 	c14Planners(r)
 	c14Tables(r, reach)
+	c14CondUpdater(r, reach)
 	r.RuleDoc("C14.R4", "status.canary is decided on every path to the status write (no stale canary survives, e.g. after the canary strategy is removed)")
 	r.Floor("C14.R4", 1)
 	c14CanaryAlwaysDecided(r, "C14.R4")
